@@ -34,6 +34,9 @@ pub struct NodeCfg {
     pub scen: Scen,
     pub max_ops: usize,
     pub monitors: bool,
+    /// over the transactional cloud store
+    #[serde(default)]
+    pub cloud: bool,
 }
 
 #[derive(Clone, Copy, Debug, PartialEq, Eq, Hash, PartialOrd, Ord, Serialize, Deserialize)]
@@ -56,6 +59,9 @@ pub enum Op {
     Empty(u32),
     Disconnect(u32),
     Restart,
+    /// allowlist requests: 0 add [a1]; 1 add [a2, unparsable]; 2 set [a3, unparsable];
+    /// 3 remove [a1, unparsable]; 4 remove [a1]
+    Allow(u8),
 }
 
 #[derive(Clone, Default, Debug, Serialize)]
@@ -107,9 +113,10 @@ impl NState {
     }
 }
 
-fn wcfg() -> WorldCfg {
+fn wcfg(cloud: bool) -> WorldCfg {
     let mut c = WorldCfg::default();
     c.oracle_pubkeys = vec![oracle_pub(0)];
+    c.cloud = cloud;
     c
 }
 
@@ -253,6 +260,7 @@ fn op_kind(op: &Op) -> String {
         Op::Empty(k) => format!("AddBlock*{}", k),
         Op::Disconnect(k) => format!("RemoveBlock*{}", k),
         Op::Restart => "Restart".into(),
+        Op::Allow(k) => ["add_allowlist", "add_allowlist", "set_allowlist", "remove_allowlist", "remove_allowlist"][*k as usize % 5].into(),
     }
 }
 
@@ -265,11 +273,11 @@ impl Model for NodeModel {
     }
 
     fn name(&self) -> String {
-        format!("nodemc({:?},ops<={}{})", self.cfg.scen, self.cfg.max_ops, if self.cfg.monitors { ",monitors" } else { "" })
+        format!("nodemc({:?},ops<={}{}{})", self.cfg.scen, self.cfg.max_ops, if self.cfg.monitors { ",monitors" } else { "" }, if self.cfg.cloud { ",cloud-store" } else { "" })
     }
 
     fn init(&self) -> NState {
-        let w = World::new(wcfg());
+        let w = World::new(wcfg(self.cfg.cloud));
         let mut chain = w.new_sim_chain();
         let b = make_block(&chain.tip().0, chain.height() + 1, 0, vec![]);
         assert!(w.connect(&mut chain, b, Delivery::Compact).is_ok());
@@ -303,6 +311,8 @@ impl Model for NodeModel {
                 }
             }
         }
+        // everything the scenario did so far is one committed transaction
+        s.w().end_request();
         s
     }
 
@@ -321,6 +331,11 @@ impl Model for NodeModel {
         }
         v.push(Op::Restart);
         v.push(Op::Heartbeat);
+        if self.cfg.monitors && self.cfg.scen == Scen::Lifecycle {
+            for k in 0..5u8 {
+                v.push(Op::Allow(k));
+            }
+        }
         match self.cfg.scen {
             Scen::Lifecycle | Scen::Mutual | Scen::DoubleSpend => {
                 if s.f.is_none() && s.ghost.hwm < 1 {
@@ -472,6 +487,28 @@ impl Model for NodeModel {
                     s.ghost.empties += 1;
                 }
             }
+            Op::Allow(k) => {
+                let net = s.w().cfg.network;
+                let (a1, a2, a3) = (crate::txbase::foreign_address(1, net), crate::txbase::foreign_address(2, net), crate::txbase::foreign_address(3, net));
+                let bad = "not-an-address".to_string();
+                let node = s.w().node.clone();
+                let k = *k;
+                let r = call(move || {
+                    match k {
+                        0 => node.add_allowlist(&[a1]),
+                        1 => node.add_allowlist(&[a2, bad]),
+                        2 => node.set_allowlist(&[a3, bad]),
+                        3 => node.remove_allowlist(&[a1, bad]),
+                        _ => node.remove_allowlist(&[a1]),
+                    }
+                    .map_err(|e| status_kind(&e))
+                });
+                tag = r.tag();
+                if r.is_panic() {
+                    s.dead = true;
+                    return;
+                }
+            }
             Op::Disconnect(k) => {
                 for _ in 0..*k {
                     let w = s.w.as_ref().unwrap();
@@ -484,6 +521,9 @@ impl Model for NodeModel {
                     s.names.pop();
                 }
             }
+        }
+        if !matches!(op, Op::Restart) {
+            end_cloud_request(s.w(), &kind, &tag, mon, vios);
         }
         // C15 invariant after every letter
         self.check_presence(s, op, vios);
@@ -513,23 +553,33 @@ pub struct NodeRun {
 }
 
 pub fn configs(tier: Tier, monitors: bool) -> Vec<NodeCfg> {
+    let mut v = configs_plain(tier, monitors);
+    if monitors && tier == Tier::Thorough {
+        v.push(NodeCfg { scen: Scen::Lifecycle, max_ops: 5, monitors, cloud: true });
+        v.push(NodeCfg { scen: Scen::Mutual, max_ops: 5, monitors, cloud: true });
+    }
+    v
+}
+
+fn configs_plain(tier: Tier, monitors: bool) -> Vec<NodeCfg> {
     match (tier, monitors) {
         (Tier::Quick, false) => vec![
-            NodeCfg { scen: Scen::Mutual, max_ops: 5, monitors },
-            NodeCfg { scen: Scen::DoubleSpend, max_ops: 5, monitors },
-            NodeCfg { scen: Scen::Lifecycle, max_ops: 4, monitors },
-            NodeCfg { scen: Scen::Swept, max_ops: 5, monitors },
+            NodeCfg { scen: Scen::Mutual, max_ops: 5, monitors, cloud: false },
+            NodeCfg { scen: Scen::DoubleSpend, max_ops: 5, monitors, cloud: false },
+            NodeCfg { scen: Scen::Lifecycle, max_ops: 4, monitors, cloud: false },
+            NodeCfg { scen: Scen::Swept, max_ops: 5, monitors, cloud: false },
         ],
         (Tier::Quick, true) => vec![
-            NodeCfg { scen: Scen::Lifecycle, max_ops: 4, monitors },
-            NodeCfg { scen: Scen::Mutual, max_ops: 3, monitors },
+            NodeCfg { scen: Scen::Lifecycle, max_ops: 4, monitors, cloud: false },
+            NodeCfg { scen: Scen::Mutual, max_ops: 3, monitors, cloud: false },
+            NodeCfg { scen: Scen::Lifecycle, max_ops: 3, monitors, cloud: true },
         ],
         (Tier::Thorough, _) => vec![
-            NodeCfg { scen: Scen::Lifecycle, max_ops: 7, monitors },
-            NodeCfg { scen: Scen::Mutual, max_ops: 7, monitors },
-            NodeCfg { scen: Scen::DoubleSpend, max_ops: 7, monitors },
-            NodeCfg { scen: Scen::Unilateral, max_ops: 7, monitors },
-            NodeCfg { scen: Scen::Swept, max_ops: 6, monitors },
+            NodeCfg { scen: Scen::Lifecycle, max_ops: 7, monitors, cloud: false },
+            NodeCfg { scen: Scen::Mutual, max_ops: 7, monitors, cloud: false },
+            NodeCfg { scen: Scen::DoubleSpend, max_ops: 7, monitors, cloud: false },
+            NodeCfg { scen: Scen::Unilateral, max_ops: 7, monitors, cloud: false },
+            NodeCfg { scen: Scen::Swept, max_ops: 6, monitors, cloud: false },
         ],
     }
 }
